@@ -3,7 +3,7 @@
    stay the extracted inductive types. *)
 From Coq Require Import Extraction ExtrOcamlBasic.
 From Coq Require Import ZArith NArith List.
-From StarV Require Import Params Bytes Keccak Strobe Fp PolyDefs Shamir Adss Star Scenario.
+From StarV Require Import Params Bytes Keccak Strobe Fp PolyDefs Shamir Adss Star Ggm Scenario.
 Extraction Language OCaml.
 Extraction "../ocaml/model.ml"
   N.of_nat N.to_nat Z.of_N Z.to_N N.add N.mul Nat.add Nat.mul
@@ -16,6 +16,7 @@ Extraction "../ocaml/model.ml"
   Fp.to_repr Fp.from_repr Fp.fp_of_limbs Fp.powmod
   Shamir.share_to_bytes Shamir.share_from_bytes Shamir.recover
   Adss.sharing_of Adss.load_bytes Adss.store_bytes Adss.ashare_to_bytes Adss.ashare_from_bytes
-  Star.message_to_bytes Star.message_from_bytes Star.parse_payload
+  Star.wasm_material Star.message_to_bytes Star.message_from_bytes Star.parse_payload
   Scenario.sharks_deal Scenario.decode_shares Scenario.adss_shares Scenario.adss_recover Scenario.adss_coeffs
+  Ggm.ginit Ggm.input_bits Scenario.ggm_run Scenario.ggm_step
   Scenario.star_scenario Scenario.star_recover_from Scenario.star_derive.
